@@ -14,7 +14,7 @@ from ..core.astutil import norm, ParentMap
 from ..core.cfg import CFG, ENTRY
 from ..core.loader import walk_no_nested
 
-RAW, CANON, CANON1, FRESH = 'RAW', 'CANON', 'CANON1', 'FRESH'
+RAW, CANON, CANON1, FRESH, ZERO, UNKNOWN, GAPPY = 'RAW', 'CANON', 'CANON1', 'FRESH', 'ZERO', 'UNKNOWN', 'GAPPY'
 
 
 def is_unique_inverse(prog, fn, call):
@@ -32,12 +32,14 @@ def is_unique_inverse(prog, fn, call):
 class LabelFlow:
     """statuses of label variables of function fn, seeded with {param: RAW}."""
 
-    def __init__(self, prog, fn, seeds):
+    def __init__(self, prog, fn, seeds, lists=()):
         self.prog = prog
         self.fn = fn
         self.cfg = CFG(fn.node)
         self.pm = ParentMap(fn.node)
         self.seeds = dict(seeds)
+        self.lists = set(lists)
+        self.stores = []
         self.IN = {}
         self._run()
 
@@ -55,10 +57,18 @@ class LabelFlow:
                 return self.status(e.func.value, st)
             if r[0] == 'func' and r[1].name == 'ls2ci':
                 return {CANON1}
+            if q == 'numpy.arange' and len(e.args) == 2 and isinstance(e.args[0], ast.Constant) and e.args[0].value == 1 \
+                    and isinstance(e.args[1], ast.BinOp) and isinstance(e.args[1].op, ast.Add) \
+                    and isinstance(e.args[1].right, ast.Constant) and e.args[1].right.value == 1:
+                return {CANON1}       # 1..n : singleton partition
+            if q == 'numpy.arange' and len(e.args) == 1:
+                return {CANON}        # 0..n-1
             return set()
         if isinstance(e, ast.Attribute) and e.attr in ('T', 'flat'):
             return self.status(e.value, st)
         if isinstance(e, ast.Subscript):
+            if is_unique_inverse(self.prog, self.fn, e.value) and norm(e.slice) == '1':
+                return {CANON}
             s = self.status(e.value, st)
             return s
         if isinstance(e, ast.BinOp) and isinstance(e.op, (ast.Add, ast.Sub)):
@@ -69,6 +79,13 @@ class LabelFlow:
             return set()
         if isinstance(e, ast.IfExp):
             return self.status(e.body, st) | self.status(e.orelse, st)
+        if isinstance(e, ast.List):
+            out = set()
+            for x in e.elts:
+                if isinstance(x, ast.Constant) and x.value is None:
+                    continue
+                out |= self.status(x, st) or {UNKNOWN}
+            return out
         return set()
 
     def _transfer(self, node, st):
@@ -92,6 +109,26 @@ class LabelFlow:
                     for e in t.elts:
                         if isinstance(e, ast.Name):
                             st.pop(e.id, None)
+                elif isinstance(t, ast.Subscript):
+                    b = t
+                    while isinstance(b, ast.Subscript):
+                        b = b.value
+                    if isinstance(b, ast.Name) and b.id in st and st[b.id]:
+                        rs = self.status(v, st)
+                        self.stores.append((node, b.id, frozenset(rs), frozenset(st[b.id])))
+                        single = isinstance(t.value, ast.Name) and not isinstance(t.slice, (ast.Compare, ast.Call, ast.Tuple, ast.Slice))
+                        if single and (st[b.id] & {CANON1, CANON}):
+                            # one node gets another module: labels stay inside 1..k but a module may have been emptied
+                            st[b.id] = {GAPPY if x in (CANON1, CANON) else x for x in st[b.id]}
+        elif isinstance(node, ast.Expr) and isinstance(node.value, ast.Call) and isinstance(node.value.func, ast.Attribute) \
+                and node.value.func.attr == 'append' and isinstance(node.value.func.value, ast.Name) and node.value.args:
+            L = node.value.func.value.id
+            if L in st or L in self.lists:
+                a0 = node.value.args[0]
+                sa = self.status(a0, st)
+                if not sa and isinstance(a0, ast.Call) and self.prog.resolve_expr(self.fn, a0.func) == ('ext', 'numpy.zeros'):
+                    sa = {ZERO}        # allocated, to be filled by the relabelling loop
+                st[L] = set(st.get(L, set())) | (sa or {UNKNOWN})
         elif isinstance(node, ast.AugAssign) and isinstance(node.target, ast.Name):
             nm = node.target.id
             if nm in st and isinstance(node.op, ast.Add) and isinstance(node.value, ast.Constant) and node.value.value == 1:
@@ -100,7 +137,32 @@ class LabelFlow:
             for e in ast.walk(node.target):
                 if isinstance(e, ast.Name):
                     st.pop(e.id, None)
+            # relabelling loop  `for i in range(n): L[h][np.where(L[h - 1] == i + 1)] = m[i]` fills the freshly appended level completely
+            fill = self._fill_loop(node, st)
+            if fill:
+                st[fill] = (st[fill] - {ZERO}) | {CANON1}
         return st
+
+    def _fill_loop(self, loop, st):
+        if not (isinstance(loop.target, ast.Name) and isinstance(loop.iter, ast.Call) and isinstance(loop.iter.func, ast.Name)
+                and loop.iter.func.id == 'range' and len(loop.iter.args) == 1 and len(loop.body) == 1 and isinstance(loop.body[0], ast.Assign)):
+            return None
+        i = loop.target.id
+        a = loop.body[0]
+        t = a.targets[0]
+        if not (isinstance(t, ast.Subscript) and isinstance(t.value, ast.Subscript) and isinstance(t.value.value, ast.Name)):
+            return None
+        L = t.value.value.id
+        if L not in st or ZERO not in st[L]:
+            return None
+        h = norm(t.value.slice)
+        want = {'np.where(%s[%s - 1] == %s + 1)' % (L, h, i), '%s[%s - 1] == %s + 1' % (L, h, i)}
+        if norm(t.slice) not in want:
+            return None
+        v = a.value
+        if not (isinstance(v, ast.Subscript) and isinstance(v.value, ast.Name) and norm(v.slice) == i and st.get(v.value.id) == {CANON1}):
+            return None
+        return L
 
     def _run(self):
         cfg = self.cfg
